@@ -690,10 +690,29 @@ fn check_faulted(
         return;
       }
     }
+    // a cache-busting restart abandons the pass in which the fault fired:
+    // the second pass may select other versions and never ask again
+    let restart_seq = run
+      .loads
+      .iter()
+      .filter(|l| {
+        l.id.nth >= 1
+          && l.id.cs == CS_USE
+          && !l.id.ensure
+          && fshape.roots.contains(&l.id.url)
+      })
+      .map(|l| l.seq)
+      .max()
+      .unwrap_or(0);
+    let fired_in_last_pass = run
+      .loads
+      .iter()
+      .any(|l| l.id == *id && l.fault.is_some() && l.seq >= restart_seq);
     if (hard || (integrity && !retry_ok))
       && !is_metadata_url(&id.url)
       && id.cs != CS_ONLY
       && id.nth == 0
+      && fired_in_last_pass
     {
       match fshape.slots.get(&id.url) {
         Some(SlotShape::Err { referrer, .. }) => {
